@@ -139,6 +139,15 @@ where CL03<CS>: Scheme<PubKey = CL03PublicKey, PrivKey = CL03SecretKey>, CS::Has
                                 env.ctx.class("sub-proof-transplant"); env.ctx.trace();
                             }
                         }
+                        for key in ["proofs_commited_mi", "range_proofs_commited_mi"] { for k in 0..r.u.len() {
+                            let name = format!("{}[{}] alone taken from a proof about another credential", key, k);
+                            let mut x = to_json(&p); x["CL03"][key][k] = qj["CL03"][key][k].clone();
+                            if env.ctx.state(&[r.id.as_bytes(), name.as_bytes()]) {
+                                let got = match from_json::<Pok<CS>>(&x) { Some(z) => verify::<CS>(&z, &cpk, &w.pk, &bases, &revealed, &r.u, n), None => O::Ok(false) };
+                                expect_bool(env, &r.id, &format!("proof_verify with [{}]", name), &got, false, true, "sub-proof-transplant:single-element", json!({"base": det0, "edit": name}));
+                                env.ctx.class("sub-proof-transplant"); env.ctx.trace();
+                            }
+                        } }
                     }
                 }
                 if n == 3 && r.u == vec![0, 2] { env.ctx.sample(json!({"root": r.id, "edits": "revealed attributes, keys, bases, commitment keys, every other hidden set, n +- 1"})); }
